@@ -21,6 +21,8 @@ def gen_history(rng, model_comparable):
             objs.append({"kind": "char", "recipe": gen_small_recipe(rng)})
         else:
             l = [rng.choice(SIMPLE_WORDS)] * rng.randrange(1, 3) if model_comparable else wlgen.gen_list(rng)
+            if not model_comparable and rng.random() < 0.25:
+                l = l + [""]          # a list with an empty entry is a list like any other: using it must not change it
             objs.append({"kind": "wl", "list": l, "length": rng.randrange(1, 4),
                          "sep": rng.choice([("char", "-"), ("preset", "SFDigits1"), ("preset", "SFDigitsSymbols"), ("const", ""), ("recipe", Recipe(2, allow=4, require_sets=["357"]))]),
                          "cap": rng.choice(["none", "first", "one", "random", "all"])})
@@ -116,7 +118,15 @@ def state_key(o):
     return "w:%s|%d|%s|%s" % (o["list"], o["length"], wlgen.sep_tokens(o["sep"]), o["cap"])
 
 
+CJK = "".join(chr(0x4e00 + i) for i in range(300))
+
+
 def gen_small_recipe(rng):
+    if rng.random() < 0.08:
+        # alphabets whose sizes coincide modulo 256 (13 and 269, 26 and 282): whatever a call remembers about one size is not
+        # about the other
+        n = rng.choice([13, 26])
+        return Recipe(rng.randrange(1, 5), allow_chars=CJK[:n + rng.choice([0, 256])])
     r = chargen.gen_recipe(rng)
     if r.length > 8:
         r.length = rng.randrange(1, 9)
